@@ -16,6 +16,7 @@ c_Acc1 == {1}
 c_Ids5 == {"a", "b", "c", "d", "e"}
 c_Ids3g == {"a", "b", "g"}
 c_Vecs1b == {"v1", "vbad"}
+c_Vecs1n == {"v1", "vnone"}
 c_Vecs2b == {"v1", "v2", "vbad"}
 c_MKeys1 == {"k"}
 c_MVals2 == {"m1", "m2"}
